@@ -1,4 +1,5 @@
 import SspModel.Lemmas.Pk
+import SspModel.Lemmas.Invariant
 import SspModel.Model.Extract
 import SspModel.Props.C03
 import SspModel.Props.C07
@@ -131,6 +132,12 @@ structure Statement : Prop where
     lo ≤ ms ∧ ms < hi ∧ Ms = n * ms ∧ ((Pk a 1 lo hi).isSome → lo < ms)
   cone : ∀ (lo hi : ℝ) (us : List Update), (∀ u ∈ us, ValidUpdate lo hi u) →
     InCone lo hi (us.foldl applyUpdate (0, 0)).1 (us.foldl applyUpdate (0, 0)).2
+  /-- … and along an exact solution: deposits of mass `m(t) ∈ [lo, hi]` at rate `d(t) ≥ 0` plus removal at the bin's mean mass with
+      any continuous fractional rate `κ(t)` (escape, ejection) keep `(N, M)` in the cone -/
+  cone_flow : ∀ (N M d m κ : ℝ → ℝ) (lo hi t0 t1 : ℝ), Continuous κ →
+    (∀ t ∈ Set.Icc t0 t1, HasDerivAt N (d t + κ t * N t) t) → (∀ t ∈ Set.Icc t0 t1, HasDerivAt M (m t * d t + κ t * M t) t) →
+    (∀ t ∈ Set.Icc t0 t1, 0 ≤ d t) → (∀ t ∈ Set.Icc t0 t1, lo ≤ m t ∧ m t ≤ hi) → InCone lo hi (N t0) (M t0) →
+    ∀ t ∈ Set.Icc t0 t1, InCone lo hi (N t) (M t)
   mean : ∀ lo hi N M : ℝ, InCone lo hi N M → 0 < N → lo ≤ remMean lo hi N M ∧ remMean lo hi N M ≤ hi
   ns : ∀ (nsMass : ℝ) (us : List Update), (∀ u ∈ us, ValidUpdate nsMass nsMass u) →
     (us.foldl applyUpdate (0, 0)).2 = nsMass * (us.foldl applyUpdate (0, 0)).1
@@ -138,11 +145,12 @@ structure Statement : Prop where
   escape_ray : ∀ (md : ℝ) (r : ℝ × ℝ), 0 < r.1 → ∃ c, remI md r = c * r.1 ∧ remJ md r = c * r.2
   eject_ray : ∀ M N x : ℝ, M ≠ 0 → M - x = (1 - x / M) * M ∧ N - x / (M / N) = (1 - x / M) * N
 
-/-- **C05 (partial)**: the discrete invariant. The passage from "every infinitesimal update keeps the cone" to the continuous
-    flow (forward invariance of a closed cone under the ODE) is not formalised; dopri5 output is checked by the sweep. -/
+/-- **C05 (partial)**: the discrete invariant and its continuous counterpart for exact solutions (`cone_flow`, by an integrating
+    factor). dopri5 output is not an exact solution: its rows are checked by the sweep. -/
 theorem C05_partial : Statement where
   star := star_mean_in_truncated_bin
   cone := cone_invariant_discrete
+  cone_flow := fun N M d m κ lo hi t0 t1 hκ hN hM hd hm h0 => Invariant.cone_forward_invariant N M d m κ lo hi t0 t1 hκ hN hM hd hm h0
   mean := mean_in_bin_of_cone
   ns := ns_mean_exact
   centre := empty_bin_reports_centre
